@@ -35,6 +35,9 @@ type Prophet struct {
 	peerPredictabilities map[bpv7.EndpointID]map[bpv7.EndpointID]float64
 	// dataMutex is a RW-mutex which protects change operations to the algorithm's metadata
 	dataMutex sync.RWMutex
+	// sentMutex guards the read-modify-write cycles on a bundle's list of peers within its BundleItem. Transmission
+	// failures are reported concurrently, from one Goroutine for each peer.
+	sentMutex sync.Mutex
 	// config contains the values for prophet constants
 	config ProphetConfig
 }
@@ -376,6 +379,9 @@ func (prophet *Prophet) SenderForBundle(bp BundleDescriptor) (sender []cla.Conve
 }
 
 func (prophet *Prophet) ReportFailure(bp BundleDescriptor, sender cla.ConvergenceSender) {
+	prophet.sentMutex.Lock()
+	defer prophet.sentMutex.Unlock()
+
 	bundleItem, err := prophet.c.store.QueryId(bp.Id)
 	if err != nil {
 		log.WithFields(log.Fields{
